@@ -51,6 +51,9 @@ type c06Spec struct {
 	Buffer   string
 	FlushInt string
 	Path     string
+	// CloseReports: (level B) the guns are closable and report one more sample while being closed
+	CloseReports bool
+	CloseDur     time.Duration
 }
 
 func decodeAggregator(conf map[string]interface{}) (core.Aggregator, error) {
@@ -65,7 +68,11 @@ func decodeAggregator(conf map[string]interface{}) (core.Aggregator, error) {
 func (s c06Spec) conf() map[string]interface{} {
 	switch s.Kind {
 	case "phout", "phout-id":
-		return map[string]interface{}{"type": "phout", "destination": s.Path, "id": s.Kind == "phout-id", "sample-queue-size": s.Queue, "buffer-size": s.Buffer}
+		m := map[string]interface{}{"type": "phout", "destination": s.Path, "id": s.Kind == "phout-id", "sample-queue-size": s.Queue, "buffer-size": s.Buffer}
+		if s.FlushInt != "1s" {
+			m["flush-time"] = s.FlushInt // any flush interval, 0 included
+		}
+		return m
 	default:
 		// (jsonlines has two squashed 'buffer-size' fields, an int and a datasize: only a plain number decodes)
 		n := map[string]int{"1kb": 1024, "4kb": 4096, "64kb": 65536, "512kb": 524288}[s.Buffer]
@@ -445,6 +452,7 @@ func buildC06Engine(sp c06Spec, inst, tokens int, rate float64, dur time.Duratio
 	script.Report = true
 	script.ShotDur = shot.dur
 	script.JSONSamples = sp.Kind == "jsonlines"
+	script.Closable, script.ReportOnClose, script.CloseDur = sp.CloseReports, sp.CloseReports, sp.CloseDur
 	fac := &stubs.GunFactory{Log: e.log, Script: script}
 	startup, err := decodeSchedule(map[string]interface{}{"type": "once", "times": inst})
 	if err != nil {
@@ -477,7 +485,9 @@ func runC06B(r *R) {
 	tokens := 1 + w.Draw(120)
 	shots := genShots(w, 10*time.Millisecond)
 	stalls := w.Draw(5) == 0
-	r.Sample(map[string]any{"level": "B", "aggregator": sp.conf(), "instances": inst, "tokens": tokens, "shots": shots.String(), "stalls": stalls})
+	sp.CloseReports = w.Draw(3) == 0
+	sp.CloseDur = []time.Duration{0, time.Millisecond, 300 * time.Millisecond}[w.Draw(3)]
+	r.Sample(map[string]any{"level": "B", "guns_report_while_closing": sp.CloseReports, "aggregator": sp.conf(), "instances": inst, "tokens": tokens, "shots": shots.String(), "stalls": stalls})
 	var (
 		e       *c06Engine
 		runErr  error
@@ -500,6 +510,12 @@ func runC06B(r *R) {
 	byTag, nlines := parseOutput(r, sp.Kind, content, false)
 	reported := 0
 	for _, ev := range e.log.Snapshot() {
+		if ev.Kind == "close-report" {
+			reported++
+			if len(byTag[fmt.Sprintf("i%d_close", ev.Inst)]) > 1 {
+				r.Fail("output/duplicate-line/"+sp.Kind, "the sample reported while gun %d was closing was written twice", ev.Inst)
+			}
+		}
 		if ev.Kind == "shoot-out" {
 			reported++
 			tag := fmt.Sprintf("i%d_s%d", ev.Inst, ev.N)
